@@ -248,6 +248,8 @@ def check(ctx, R):
     R.run("C08.c", wire_rules.c08_c, ctx)
     R.run("C08.d", rule_d, ctx)
     R.run("C08.e", rule_e, ctx)
+    from . import preds
+    R.run("C08.p", lambda R, c: preds.rule(R, c, "C08.p", ["same_type"]), ctx)
     from . import c06
     R.run("C08.f", lambda R, c: c06.rule_g(R, c, "C08.f", only=("yrs::update::Update::encode_diff",)), ctx)
     R.run("C08.g", lambda R, c: c06.rule_h(R, c, "C08.g"), ctx)
